@@ -760,7 +760,7 @@ rv = .false.
                 if only:
                     snames = sorted(only.keys())
                     arg_f_use.append(
-                        "use %s, only : %s" % (mname, ", ".join(snames))
+                        "use %s, only : %s" % (mname, ",\t ".join(snames))
                     )
                 else:
                     arg_f_use.append("use %s" % mname)
@@ -927,7 +927,7 @@ rv = .false.
                 arg_f_use = self.sort_module_info(modules, None)
                 iface.extend(arg_f_use)
                 if imports:
-                    iface.append("import :: " + ", ".join(sorted(imports.keys())))
+                    iface.append("import :: " + ",\t ".join(sorted(imports.keys())))
                 iface.append("implicit none")
                 iface.extend(arg_c_decl)
                 iface.append(-1)
@@ -1324,7 +1324,7 @@ rv = .false.
         c_interface.append(1)
         c_interface.extend(arg_f_use)
         if imports:
-            c_interface.append("import :: " + ", ".join(sorted(imports.keys())))
+            c_interface.append("import :: " + ",\t ".join(sorted(imports.keys())))
         c_interface.append("implicit none")
         c_interface.extend(arg_c_decl)
         c_interface.append(-1)
